@@ -1680,6 +1680,9 @@ rrul_fill_dly(echs_instant_t *restrict tgt, size_t nti, rrulsp_t rr)
 	size_t res = 0UL;
 	/* candidates looked at since the last hit */
 	size_t tries = 0UL;
+	/* BYSETPOS over the times of a day */
+	bool posp;
+	size_t npos, ipos;
 	uint8_t wd_mask = 0U;
 	unsigned int m_mask = 0U;
 	uint_fast32_t posd_mask = 0U;
@@ -1718,7 +1721,8 @@ rrul_fill_dly(echs_instant_t *restrict tgt, size_t nti, rrulsp_t rr)
 		/* because we're subtractive, allow all days in the wd_mask if
 		 * all of the actual mask days are 0 */
 		wd_mask |= 0b11111110U;
-	} else if (rr->inter == 1U && !bi31_has_bits_p(rr->dom)) {
+	} else if (rr->inter == 1U && !bi31_has_bits_p(rr->dom) &&
+		   !bi383_has_bits_p(&rr->pos)) {
 		/* aaaah, what they want in fact is a weekly schedule
 		 * with the days in wd_mask, which knows about months
 		 * but not about days of the month */
@@ -1727,6 +1731,8 @@ rrul_fill_dly(echs_instant_t *restrict tgt, size_t nti, rrulsp_t rr)
 
 	/* generate a set of hours, minutes and seconds */
 	(void)make_enum(&e, proto, rr);
+	posp = bi383_has_bits_p(&rr->pos);
+	npos = (size_t)e.nH * e.nM * e.nS;
 
 	/* set up the month mask */
 	with (unsigned int tmp) {
@@ -1795,6 +1801,7 @@ rrul_fill_dly(echs_instant_t *restrict tgt, size_t nti, rrulsp_t rr)
 			continue;
 		}
 
+		ipos = 0U;
 		for (ENUM_INIT(e, iS, iM, iH);
 		     res < nti && ENUM_COND(e, iS, iM, iH); ENUM_ITER(e, iS, iM, iH)) {
 			echs_instant_t x = {
@@ -1806,6 +1813,10 @@ rrul_fill_dly(echs_instant_t *restrict tgt, size_t nti, rrulsp_t rr)
 				.S = e.S[iS],
 				.ms = proto.ms,
 			};
+			/* the period is the day, limit by setpos */
+			if (posp && !pos_selected_p(&rr->pos, ++ipos, npos)) {
+				continue;
+			}
 			if (UNLIKELY(echs_instant_lt_p(x, proto))) {
 				continue;
 			} else if (UNLIKELY(echs_instant_lt_p(until, x))) {
